@@ -839,7 +839,7 @@ def builtins_table():
         "any": lambda x: any(x),
         "all": lambda x: all(x),
         "bool": bool,
-        "filter": lambda f, xs: [x for x in xs if f(x)],
+        "filter": lambda f, xs: xs.pyvc_filter(f) if hasattr(xs, "pyvc_filter") else [x for x in xs if f(x)],
         "map": lambda f, xs: [f(x) for x in xs],
         "print": lambda *a, **k: None,
         "next": py_next,
